@@ -68,6 +68,14 @@ type gFork struct {
 }
 
 type gRun struct {
+	forceRecv int      // scripted histories: the receiver of the next grants
+	forceCap  uint64   // scripted histories: cap_count of the next campaigns
+	par       struct { // current core parameters (for mid-history changes)
+		betBatch                    uint32
+		betMin, betFee, minDeposit  int64
+		houseFee                    string
+		maxW, maxPart, obBatch, thr uint64
+	}
 	out      *Out
 	h        int
 	r        *Rng
@@ -129,6 +137,8 @@ func newGRun(out *Out, h int, r *Rng, lean bool, cfg gCfg) *gRun {
 
 func (g *gRun) setParams(betBatch uint32, betMin, betFee, minDeposit int64, houseFee string, maxW uint64, maxPart, obBatch, thr uint64) {
 	e := g.e
+	g.par.betBatch, g.par.betMin, g.par.betFee, g.par.minDeposit, g.par.houseFee = betBatch, betMin, betFee, minDeposit, houseFee
+	g.par.maxW, g.par.maxPart, g.par.obBatch, g.par.thr = maxW, maxPart, obBatch, thr
 	bp := e.App.BetKeeper.GetParams(e.Ctx)
 	bp.BatchSettlementCount = betBatch
 	bp.Constraints.MinAmount = sdkmath.NewInt(betMin)
@@ -154,6 +164,39 @@ func (g *gRun) setParams(betBatch uint32, betMin, betFee, minDeposit int64, hous
 	}
 	g.height, g.now = 2, BaseTime+100
 	g.setBlock()
+}
+
+// changeParams: governance changes one parameter of house / orderbook / bet in mid-history (on the original chain and on
+// every restarted chain that continues the history)
+func (g *gRun) changeParams() {
+	switch g.r.Intn(4) {
+	case 0:
+		g.par.maxPart = uint64(g.r.Pick([]int64{1, 2, 3, 100}))
+	case 1:
+		g.par.maxW = uint64(g.r.Pick([]int64{1, 2, 3}))
+	case 2:
+		g.par.obBatch = uint64(g.r.Pick([]int64{1, 2, 100}))
+	case 3:
+		g.par.betBatch = uint32(g.r.Pick([]int64{1, 2, 1000}))
+	}
+	p := g.par
+	if g.lean {
+		hf := sdkmath.LegacyMustNewDecFromStr(p.houseFee)
+		g.out.Op("PARAMS %d %d %d %d %s %d %d %d %d", p.betBatch, p.betMin, p.betFee, p.minDeposit, decRaw(hf), p.maxW, p.maxPart, p.obBatch, p.thr)
+	}
+	_ = g.apply("params.change", func(e *Env, ctx sdk.Context) error {
+		bp := e.App.BetKeeper.GetParams(ctx)
+		bp.BatchSettlementCount = p.betBatch
+		e.App.BetKeeper.SetParams(ctx, bp)
+		hp := e.App.HouseKeeper.GetParams(ctx)
+		hp.MaxWithdrawalCount = p.maxW
+		e.App.HouseKeeper.SetParams(ctx, hp)
+		op := e.App.OrderbookKeeper.GetParams(ctx)
+		op.MaxOrderBookParticipations = p.maxPart
+		op.BatchSettlementCount = p.obBatch
+		e.App.OrderbookKeeper.SetParams(ctx, op)
+		return nil
+	})
 }
 
 func (g *gRun) setBlock() {
@@ -700,7 +743,10 @@ func (g *gRun) rewardCampaign() {
 	}
 	g.nCamp++
 	uid := UID(clsCampaign, g.nCamp)
-	capCount := uint64(g.r.Pick([]int64{0, 0, 1, 2}))
+	capCount := uint64(g.r.Pick([]int64{0, 0, 1, 2, 3}))
+	if g.forceCap > 0 {
+		capCount = g.forceCap
+	}
 	tk := g.e.Ticket(0, map[string]interface{}{
 		"promoter": g.e.Accts[g.promoter].String(), "start_ts": uint64(g.now - 5), "end_ts": uint64(g.now + 100_000),
 		"category": rewardtypes.RewardCategory_REWARD_CATEGORY_SIGNUP, "reward_type": rewardtypes.RewardType_REWARD_TYPE_SIGNUP,
@@ -731,6 +777,12 @@ func (g *gRun) rewardGrant() {
 	}
 	camp := g.campaigns[g.r.Intn(len(g.campaigns))]
 	recv := 1 + g.r.Intn(10)
+	if g.r.Chance(60) {
+		recv = 1 + g.r.Intn(2) // the same few accounts collect several rewards of a campaign (per-account caps)
+	}
+	if g.forceRecv > 0 {
+		recv = g.forceRecv
+	}
 	g.nRewards++
 	uid := UID(clsReward, g.nRewards)
 	tk := g.e.Ticket(0, map[string]interface{}{"common": map[string]interface{}{"receiver": g.e.Accts[recv].String(), "source_uid": "", "meta": "r",
@@ -1135,6 +1187,10 @@ func runGenesis(seed uint64, n int, out *Out) {
 		nOps := 15 + r.Intn(maxOps)
 		sinceExport := 0
 		for i := 0; i < nOps && !g.halted; i++ {
+			if i > 4 && r.Chance(4) {
+				g.changeParams()
+				continue
+			}
 			x := r.Intn(100)
 			var m *coreMarket
 			var live []*coreMarket
@@ -1381,6 +1437,26 @@ func runGenesisScripted(_ uint64, _ int, out *Out) {
 		g.rewardGrant()
 		g.rewardPromoterAgain(2)
 		g.endBlock(true, 5)
+		g.rewardGrant()
+		g.endBlock(false, 5)
+		g.finish()
+	})
+	// 8: reward — a campaign capped at two grants per account; one account collects two rewards in two blocks and is
+	//    refused a third; export + restart; the restarted chain must refuse it as well (the counters are rebuilt)
+	scripts = append(scripts, func(h int) {
+		g := mk(h, true)
+		g.marketAdd(2)
+		g.rewardPromoter()
+		g.forceCap, g.forceRecv = 2, 3
+		g.rewardCampaign()
+		g.rewardGrant()
+		g.endBlock(false, 5)
+		g.rewardGrant()
+		g.endBlock(false, 5)
+		g.rewardGrant()
+		g.endBlock(true, 5)
+		g.rewardGrant()
+		g.forceRecv = 4
 		g.rewardGrant()
 		g.endBlock(false, 5)
 		g.finish()
